@@ -129,9 +129,10 @@ class Char:
 class Chars:
     def __init__(self, fmt):
         self.fmt = fmt
+        self.known = KNOWN_IID
 
     def iid(self, i):
-        return Char(KNOWN_IID, self.fmt) if (not hasattr(i, "t") and i == KNOWN_IID) or (hasattr(i, "t") and decide(i == KNOWN_IID)) else None
+        return Char(self.known, self.fmt) if decide(i == self.known) else None
 
 
 class Acc:
